@@ -409,6 +409,12 @@ def apply_string_edits(src, toks, edits):
 CMT_WS = re.compile(r"\t|[ \t]{2,}(\r?\n|$)")      # F25 shape: a tab, or 2+ blanks at the end of a line
 
 
+COMMENT_REPAIR = {
+    F17: lambda t: CONT_WS.sub("\n", t),
+    F25: lambda t: re.sub(r"[ \t]+(\r?\n|$)", r"\1", re.sub(r"[ \t]*\t[ \t]*", " ", t)),
+}
+
+
 def only_blank_runs_differ(a, b):
     """do the texts differ only in the length of runs of blanks/tabs inside their lines?"""
     la, lb = a.split("\n"), b.split("\n")
@@ -685,14 +691,14 @@ class C20(Property):
             return []
         keys = c20gaps.comment_keys(obs["toks"], cmts)
         fam = {}
-        if F17 in kids and ms == {"idem"}:
+        if F17 in kids and "idem" in ms:
             ix = multiline_indented(cmts)
             if ix:
-                fam[F17] = {i: CONT_WS.sub("\n", cmts[i][2]) for i in ix}
-        if F25 in kids and ms == {"idem"}:
+                fam[F17] = {i: COMMENT_REPAIR[F17](cmts[i][2]) for i in ix}
+        if F25 in kids and "idem" in ms:
             ix = [i for i, c in enumerate(cmts) if CMT_WS.search(c[2])]
             if ix:
-                fam[F25] = {i: re.sub(r"[ \t]+(\r?\n|$)", r"\1", re.sub(r"[ \t]*\t[ \t]*", " ", cmts[i][2])) for i in ix}
+                fam[F25] = {i: COMMENT_REPAIR[F25](cmts[i][2]) for i in ix}
         if F22 in kids:
             # the registered family: a comment that carries a line break between two tokens the
             # pinned formatter prints on one line (committed list of such gaps) -- idempotence;
@@ -710,6 +716,7 @@ class C20(Property):
             return []
         names = sorted(fam)
         combos = [[f] for f in names] + [[a, b2] for i, a in enumerate(names) for b2 in names[i + 1:]] + \
+                 ([[x for x in names if x != y] for y in names] if len(names) > 3 else []) + \
                  ([names] if len(names) > 2 else [])
         out = []
         for combo in combos:
@@ -738,6 +745,8 @@ class C20(Property):
                 for i, t in fam[f].items():
                     if t == " " or i not in edits:      # removing a comment wins over repairing it
                         edits[i] = t
+                    elif edits[i] != " ":               # two repairs of one comment: both
+                        edits[i] = COMMENT_REPAIR[f](edits[i])
             src2 = edit_comments(case["src"], cmts, edits) if edits else case["src"]
             if src2 is not None and F24 in combo:
                 src2 = apply_string_edits(src2, obs["toks"], fam[F24])
@@ -747,26 +756,20 @@ class C20(Property):
 
     # ---- direct monitor: comments must not disappear -------------------------------
     def extra(self, ctx):
-        """`only whitespace and comment placement may differ`: every comment of the source must be
-        in the formatted text.  Judged on every valid program of the run once the finding
-        C20-comment-dropped is registered: a lost comment whose gap is recorded with mode "lost" in
-        the committed table is that known finding, any other lost comment is a failing input."""
+        """`only whitespace and comment placement may differ`: every comment of the source should
+        be in the formatted text.  Which losses are the registered finding C20-comment-dropped is
+        decided by prop_ok in Coq, from the model printer's line structure (tree independent): a
+        comment standing where the canonical layout breaks the line must survive (else the case
+        fails prop_ok and is a VIOLATION); comments between two tokens printed on one line, next to
+        a deleted ';' or in a program with deleted empty constructs may be lost -- those losses are
+        counted here and reported as KNOWN-FINDING once the finding is registered."""
         if not self._on(F23):
             return []
         res = []
         for src, obs in self._monitor.items():
             if obs["pout"] != "ok" or obs["fout"] != "ok" or obs.get("serr"):
                 continue
-            lost = lost_comments(obs)
-            if not lost:
-                continue
-            keys = c20gaps.comment_keys(obs["toks"], obs["cmts"])
-            bad = [i for i in lost if "lost" not in c20gaps.modes(keys[i])]
-            if bad:
-                res.append({"what": "format.Source dropped the comment %r (gap %s), which the pinned tree keeps"
-                                    % (obs["cmts"][bad[0]][2], keys[bad[0]]),
-                            "replay": {"src": src, "formatted": obs["fmt1"], "lost": [obs["cmts"][i][2] for i in bad]}})
-            else:
+            if lost_comments(obs):
                 res.append({"what": "comments dropped", "known": F23, "replay": {"src": src}})
         return res[:400]
 
